@@ -14,14 +14,20 @@ EXPLANATION = (
     "child. C12.4: contains_all = is_empty(remove_all_found(self, clone(target))); the remover removes digest(self) from the target "
     "set. Minimal disclosure then follows from C03 applied twice. Does not decide set semantics of std HashSet.")
 TRUSTED = ['HashSet::{contains,insert,remove,is_subset,is_empty,extend} have their std semantics']
-FLOORS = {'C12.1': 2, 'C12.2': 2, 'C12.3': 11, 'C12.4': 2}
+FLOORS = {'C12.1': 2, 'C12.2': 2, 'C12.3': 11, 'C12.4': 1}
 P1, P2, P3, P4 = ('param', 1), ('param', 2), ('param', 3), ('param', 4)
 
 
 def check(ctx):
     F = ctx.F
+    pcs = F.method1('Envelope', 'proof_contains_set')
+    ccs = F.method1('Envelope', 'confirm_contains_set')
+    collectors = rec.reachable_recursive(F, pcs) if pcs else []
+    removers = rec.reachable_recursive(F, ccs) if ccs else []
+    col = collectors[0] if len(collectors) == 1 else None
+    remover = removers[0] if len(removers) == 1 else None
     # ---- C12.1
-    b = F.method1('Envelope', 'confirm_contains_set')
+    b = ccs
     if b is None:
         ctx.lost('C12.1', 'Envelope::confirm_contains_set')
     else:
@@ -36,15 +42,20 @@ def check(ctx):
             return l is not None and r is not None and {strip_sites(l), strip_sites(r)} == {P1, P3}
         for bi, si, t in acc:
             site = ctx.site(b, bi, si)
-            v = strip_sites(t)
-            ca = m_call(v, name='contains_all', self_suffix='Envelope')
+            v = strip_sites(inline(F, t))
             if v == ('bool', True):
                 ctx.fail('C12.1', site, 'confirmation returns a constant true', key='C12.1|const')
                 continue
-            if ca is None or ca[0] != P3 or ca[1] != P2:
-                ctx.fail('C12.1', site, 'confirmation result is %s, not contains_all(proof, target)' % fmt(v), key='C12.1|value')
+            # is_empty(remover(proof, clone(target)))  - private helper names are irrelevant, the remover is found by role
+            ie = m_call(v, name='is_empty')
+            rm = ie[0] if ie else None
+            good = False
+            if rm is not None and rm[0] == 'mut' and remover is not None and CALLEES.get(rm[1]) is not None and CALLEES[rm[1]].best_hash == remover.hash:
+                good = rm[3][0] == P3 and rm[3][rm[2]] == P2 and rm[2] == 1
+            if not good:
+                ctx.fail('C12.1', site, 'confirmation result is %s, not is_empty(remove-found(proof, clone(target)))' % fmt(v), key='C12.1|value')
                 continue
-            ctx.ok('C12.1', site, 'result = contains_all(proof, target): the search runs in the proof for the caller\'s targets', sample=fmt(v))
+            ctx.ok('C12.1', site, 'result = is_empty(remove-found(proof, clone(target))): the search runs in the proof for the caller\'s targets', sample=fmt(v))
             gs = find_terms(b, tb, guard)
             if not gs:
                 ctx.fail('C12.1', site, 'the root-digest conjunct digest(self) == digest(proof) is missing', key='C12.1|noguard')
@@ -55,7 +66,7 @@ def check(ctx):
             else:
                 ctx.fail('C12.1', site, 'result not dominated by the root-digest comparison: ' + info, key='C12.1|dominance')
     # ---- C12.2
-    b = F.method1('Envelope', 'proof_contains_set')
+    b = pcs
     if b is None:
         ctx.lost('C12.2', 'Envelope::proof_contains_set')
     else:
@@ -63,9 +74,15 @@ def check(ctx):
         acc = accept_sites(b, tb)
         if not acc:
             ctx.lost('C12.2', 'accept exit of proof_contains_set')
+        def empty(t):
+            return m_call(t, name='new') is not None or m_call(t, name='default') is not None
         def is_R(t):
-            a = m_call(strip_sites(t), name='reveal_set_of_set', self_suffix='Envelope')
-            return a is not None and a[0] == P1 and a[1] == P2
+            # result set of collector(self, target, {}, &mut {})
+            r = strip_sites(inline(F, t))
+            if r[0] != 'mut' or col is None or CALLEES.get(r[1]) is None or CALLEES[r[1]].best_hash != col.hash:
+                return False
+            a = r[3]
+            return len(a) == 4 and r[2] == 3 and a[0] == P1 and a[1] == P2 and empty(a[2]) and empty(a[3])
         def guard(x):
             return x[0] == 'call' and call_name(x) == 'is_subset' and strip_sites(x[2][0]) == P2 and is_R(x[2][1])
         for bi, si, t in acc:
@@ -87,35 +104,10 @@ def check(ctx):
                 ctx.ok('C12.2', site, 'Some dominated by is_subset(target, R); ' + info)
             else:
                 ctx.fail('C12.2', site, 'Some not dominated by the subset test: ' + info, key='C12.2|dominance')
-    # ---- C12.4 wiring helpers
-    b = F.method1('Envelope', 'contains_all')
-    if b is None:
-        ctx.lost('C12.4', 'contains_all')
-    else:
-        rt = strip_sites(TermBuilder(F, b).return_term())
-        a = m_call(rt, name='is_empty')
-        m = m_call(a[0], name='remove_all_found', kind='mut') if a else None
-        if m is not None and m[0] == P1 and m[1] == P2 and a[0][2] == 1:
-            ctx.ok('C12.4', ctx.site(b), 'contains_all = is_empty(remove_all_found(self, clone(target)))', sample=fmt(rt))
-        else:
-            ctx.fail('C12.4', ctx.site(b), 'contains_all is %s' % fmt(rt), key='C12.4|contains_all')
-    b = F.method1('Envelope', 'reveal_set_of_set')
-    if b is None:
-        ctx.lost('C12.4', 'reveal_set_of_set')
-    else:
-        rt = strip_sites(TermBuilder(F, b).return_term())
-        m = m_call(rt, name='reveal_sets', kind='mut')
-        def empty(t):
-            return m_call(t, name='new') is not None or m_call(t, name='default') is not None
-        if m is not None and rt[2] == 3 and m[0] == P1 and m[1] == P2 and empty(m[2]) and empty(m[3]):
-            ctx.ok('C12.4', ctx.site(b), 'reveal set = result of reveal_sets(self, target, {}, &mut {})', sample=fmt(rt))
-        else:
-            ctx.fail('C12.4', ctx.site(b), 'reveal_set_of_set is %s' % fmt(rt), key='C12.4|reveal_set')
     # ---- C12.3 recursion
-    col = F.method1('Envelope', 'reveal_sets')
-    rem = F.method1('Envelope', 'remove_all_found')
+    rem = remover
     if col is None or rem is None:
-        ctx.lost('C12.3', 'reveal_sets / remove_all_found')
+        ctx.lost('C12.3', 'the recursive reveal-set collector (reachable from proof_contains_set: %d found) / found-set remover (reachable from confirm_contains_set: %d found)' % (len(collectors), len(removers)))
         return
     tb = TermBuilder(F, col)
     sites = rec.recursive_call_sites(F, col)
